@@ -90,7 +90,7 @@ def grid_dataset(ctx, conv, shape, as_coords=True):
     return ds, cv, kinds
 
 
-def mesh_dataset(ctx, mesh, supply, start_index, fill, transposed=False):
+def mesh_dataset(ctx, mesh, supply, start_index, fill, transposed=False, fill_value=None, coords_as_coords=False):
     from emsarray.conventions.ugrid import UGrid
     nodes, faces = builders.MESHES[mesh]
     ne = len(builders.mesh_edges(faces)[0])
@@ -105,7 +105,16 @@ def mesh_dataset(ctx, mesh, supply, start_index, fill, transposed=False):
         'id_edge': (('nedge',), clipcommon.ids((ne,))),
         'clock': (('t',), numpy.array([5.0, 6.0]), {'long_name': 'clock'}),
     }
-    ds = builders.ugrid(mesh, supply=supply, start_index=start_index, fill=fill, transposed=transposed, with_edges=True, data_vars=data)
+    edge_order = None
+    if {'face_edge', 'edge_face'} & set(supply) and 'edge_node' not in supply:
+        # edges described through face_edge / edge_face only: the edge numbers mean something only if they follow the
+        # numbering the library derives for an absent edge_node table, so the input is written in that numbering
+        from emsarray.conventions.ugrid import Mesh2DTopology
+        derived = [frozenset(int(v) for v in e) for e in Mesh2DTopology(builders.ugrid(mesh, with_edges=True)).edge_node_array]
+        mine = [frozenset(e) for e in builders.mesh_edges(faces)[0]]
+        edge_order = [mine.index(e) for e in derived]
+    ds = builders.ugrid(mesh, supply=supply, start_index=start_index, fill=fill, transposed=transposed, with_edges=True, data_vars=data,
+                        edge_order=edge_order, fill_value=fill_value, coords_as_coords=coords_as_coords)
     ds.attrs['title'] = 'clip me'
     return ds, UGrid(ds), (nodes, faces, ne)
 
@@ -230,10 +239,15 @@ def check_grid_values(ctx, ds, out, kinds, masks):
     ctx.check([n for n in out.data_vars if n in ds.data_vars] == [n for n in ds.data_vars if n in out.data_vars], 'variable order preserved')
 
 
-def body_grid(ctx, conv, shape, buffer, via, as_coords, check='values'):
+def body_grid(ctx, conv, shape, buffer, via, as_coords, check='values', frame=False):
     ds, cv, kinds = grid_dataset(ctx, conv, shape, as_coords)
     polygons = cv.polygons
-    chosen, clips = clipcommon.choose_hits(ctx, cv, polygons)
+    fixed = None
+    if frame:
+        # the outer frame of cells is selected, the interior cells are symbolic (holes of every shape inside a ring)
+        ny, nx = shape
+        fixed = {j * nx + i: True for j in range(ny) for i in range(nx) if j in (0, ny - 1) or i in (0, nx - 1)}
+    chosen, clips = clipcommon.choose_hits(ctx, cv, polygons, fixed)
     ctx.note('clip', dict(conv=conv, shape=list(shape), hits=chosen, buffer=buffer, via=via))
     if not chosen:
         try:
@@ -290,8 +304,8 @@ def check_mesh_values(ctx, ds, out, info, kept_faces):
     ctx.check([n for n in out.data_vars if n in ds.data_vars] == [n for n in ds.data_vars if n in out.data_vars], 'variable order preserved')
 
 
-def body_mesh(ctx, mesh, supply, start_index, fill, buffer, via, check='values', transposed=False):
-    ds, cv, info = mesh_dataset(ctx, mesh, supply, start_index, fill, transposed)
+def body_mesh(ctx, mesh, supply, start_index, fill, buffer, via, check='values', transposed=False, fill_value=None, coords_as_coords=False):
+    ds, cv, info = mesh_dataset(ctx, mesh, supply, start_index, fill, transposed, fill_value, coords_as_coords)
     nodes, faces, ne = info
     chosen, clips = clipcommon.choose_hits(ctx, cv, cv.polygons)
     ctx.note('clip', dict(mesh=mesh, supply=list(supply), hits=chosen, buffer=buffer, via=via))
@@ -330,8 +344,23 @@ def cases(tier, check='values'):
                 yield Case(f'{check}:grid:{conv}:{shape[0]}x{shape[1]}:{"coords" if as_coords else "vars"}:buf{buffer}:{via}', body_grid,
                            dict(conv=conv, shape=shape, buffer=buffer, via=via, as_coords=as_coords, check=check),
                            patches=_patches, max_paths=5000, split=(16 if shape[0] * shape[1] >= 6 else 0))
+    # a ring of selected cells around symbolic interior cells (holes one row tall, two cells wide, ...)
+    for conv, shape in ((('shoc_standard', (3, 4)),) if q else (('shoc_standard', (3, 4)), ('shoc_standard', (4, 4)), ('cf2d', (3, 4)))):
+        yield Case(f'{check}:grid:{conv}:{shape[0]}x{shape[1]}:coords:buf0:clip:frame', body_grid,
+                   dict(conv=conv, shape=shape, buffer=0, via='clip', as_coords=True, check=check, frame=True),
+                   patches=_patches, max_paths=500)
+    # one-based tables whose fill value is 0 (kept in the encoding, as when decoded from a file); a strip of quads
+    for mesh, supply, kw in (('tqp', ('edge_node', 'face_edge', 'edge_face'), dict(start_index=1, fill='nan', fill_value=0)),
+                             ('qqq', ('edge_node',), dict(start_index=0, fill='nan')),
+                             # node coordinates held as xarray coordinates (named in a `coordinates` attribute)
+                             ('tqp', ('edge_node',), dict(start_index=0, fill='nan', coords_as_coords=True))):
+        yield Case(f'{check}:mesh:{mesh}:{"+".join(supply)}:start{kw["start_index"]}:{kw["fill"]}:fill{kw.get("fill_value")}:coords{int(kw.get("coords_as_coords", False))}:buf0:clip', body_mesh,
+                   dict(mesh=mesh, supply=supply, buffer=0, via='clip', check=check, **kw), patches=_patches, max_paths=2000)
     supplies = [(), ('edge_node',), ('edge_node', 'face_edge'), ('edge_node', 'edge_face'), ('edge_node', 'face_face'),
-                ('edge_node', 'face_edge', 'edge_face', 'face_face')]
+                ('edge_node', 'face_edge', 'edge_face', 'face_face'),
+                # edges described through face_edge / edge_face only (edge numbers = first-seen order of the node pairs,
+                # which is also how an absent edge_node table is derived)
+                ('face_edge', 'edge_face')]
     meshes = ['tqp'] if q else ['tqp', 'fan', 'qqq']
     k = 0
     for mesh in meshes:
